@@ -35,9 +35,10 @@ type FnSpec struct {
 	HasAssigns     bool
 	Trusted        bool
 	Inline         bool
-	NoFrame        bool     // the frame (assigns) of this function is not checked; it cannot be called by contract
-	Pure           bool     // the result is a function of the arguments and of the heap components named in Reads
-	Reads          []string // heap key prefixes a pure function may read (checked when the function itself is verified)
+	NoFrame        bool        // the frame (assigns) of this function is not checked; it cannot be called by contract
+	NeverReads     [][2]string // heap-key prefixes the function must not touch at all (owned by another goroutine), with a label
+	Pure           bool        // the result is a function of the arguments and of the heap components named in Reads
+	Reads          []string    // heap key prefixes a pure function may read (checked when the function itself is verified)
 	Lemma          bool
 	AssumedEnsures []*Clause // postconditions assumed at call sites and NOT proved (listed in the evidence as assumptions)
 	GhostEnsures   []*Clause // definitions of ghost state this function owns: assumed at call sites, nothing to prove
@@ -82,6 +83,9 @@ func (s *FnSpec) props() map[string]bool {
 	}
 	if s.PanicsIff != nil {
 		add(s.PanicsIff.Labels)
+	}
+	for _, nr := range s.NeverReads {
+		add([]string{nr[1]})
 	}
 	return m
 }
@@ -452,6 +456,15 @@ func (c *Contracts) parseFile(prog *ssa.Program, p *packages.Package, sp *ssa.Pa
 							s.Reads = append(s.Reads, r)
 						}
 					}
+				}
+			case "never-reads":
+				// never-reads <target> <Type.field> <label>: the function does not even read that field (it belongs to
+				// another goroutine): a read frame for functions that are not pure
+				if !need(4) {
+					continue
+				}
+				if s := c.spec(sp, fs[1], pos); s != nil {
+					s.NeverReads = append(s.NeverReads, [2]string{sp.Pkg.Name() + "." + fs[2], fs[3]})
 				}
 			case "noframe":
 				if !need(2) {
